@@ -182,6 +182,10 @@ def check_against_events(ctx, doc, rqs, events):
                               f'propagation {a} -> {z} was observed for this request')
                 continue
             got = {e['metric-type']: e['accumulative-value'] for e in props[key]}
+            if any(isinstance(v, float) and math.isnan(v) for v in ev.values()):
+                # noise-dominated line far outside the regime of the models: the figures are not numbers
+                ctx.skip('receiver-figures-not-a-number')
+                continue
             diff = {k: (got.get(k), ev[k]) for k in RECEIVER_KEYS if got.get(k) != ev[k]}
             if diff:
                 ctx.violation('metrics-not-own-propagation', f'response {rq.request_id}: {key} ({a} -> {z}) differs '
@@ -239,7 +243,9 @@ def check_entry(ctx, entry, rq, path, rpath, group):
     # metrics
     exp = expected_metrics(path[-1], rq)
     got = {e['metric-type']: e['accumulative-value'] for e in props['path-metric']}
-    if got != exp:
+    if any(isinstance(v, float) and math.isnan(v) for v in exp.values()):
+        ctx.skip('receiver-figures-not-a-number')
+    elif got != exp:
         diff = {k: (got.get(k), exp[k]) for k in exp if got.get(k) != exp[k]}
         ctx.violation('metrics', f'{where}: reported metrics differ from the forward receiver: {diff}')
     if rq.bidir:
@@ -250,7 +256,9 @@ def check_entry(ctx, entry, rq, path, rpath, group):
         else:
             expr = expected_metrics(rpath[-1], rq)
             gotr = {e['metric-type']: e['accumulative-value'] for e in props.get('z-a-path-metric', [])}
-            if gotr != expr:
+            if any(isinstance(v, float) and math.isnan(v) for v in expr.values()):
+                ctx.skip('receiver-figures-not-a-number')
+            elif gotr != expr:
                 diff = {k: (gotr.get(k), expr[k]) for k in expr if gotr.get(k) != expr[k]}
                 fwd = exp
                 mech = None
